@@ -244,7 +244,7 @@ func c07Program(c *checker, r *rng.R, p *Prog, how, known string, extra []Orders
 			break
 		}
 	}
-	if (known == "D10" || known == "D41") && !differs {
+	if (known == "D10" || known == "D50") && !differs {
 		c.stale[known] = true
 	}
 	// repeated natural runs (Go's own map order)
